@@ -129,8 +129,9 @@ def judge_batch(ck, cases, res, stats, fault_hist, nontriv, samples, by_class):
             continue
         if a["apanic"]:
             stats["tree_builder_panics"] += 1
-            if stats["tree_builder_panics"] <= 3:
-                ck.notes.append("tree builder panic (C04's subject, case not judged here): %s on %s" % (
+            if stats["tree_builder_panics"] <= 2:
+                # fail closed: a parse that cannot be judged is no evidence for the property
+                L.note_broken(ck, "parse could not be judged because the tree builder panicked (C04's property): %s on %s" % (
                     a["trace"][:160], json.dumps(L.describe(case), ensure_ascii=True)[:300]))
             continue
         if "bad" in b:
